@@ -36,7 +36,8 @@ EXHAUSTIVE = {"quick": False, "thorough": True}
 DEADLINE = {"quick": 70, "thorough": 1200}
 
 QUICK_SC = ["ssl3-rsa", "tls10-dhe_rsa", "tls12-ecdhe_rsa-clientauth",
-            "tls12-resume-ticket", "tls12-srp", "tls13-rsa", "tls13-hrr",
+            "tls12-resume-ticket", "tls12-resume-id", "tls12-srp",
+            "tls13-rsa", "tls13-hrr",
             "tls13-resume-ticket", "tls13-clientauth"]
 FAULTS = {"recv": ["eof", "reset"], "send": ["epipe", "reset",
                                              "partial_reset"]}
@@ -630,6 +631,23 @@ def run_alert(ctx, cid, P):
                               sess.resumable, sess.valid()))
         else:
             ctx.count("fatal_surfaced")
+            cache = fl.session_cache
+            if vname == "server" and cache is not None and \
+                    sess is not None and sess.sessionID:
+                # what the server's cache serves under that ID is dead too
+                try:
+                    ent = cache[bytearray(sess.sessionID)]
+                    alive = ent is not None and ent.valid()
+                except KeyError:
+                    alive = False
+                ctx.count("cache_entry_checked_after_fatal")
+                if alive:
+                    ctx.violation(dict(key,
+                                       clause="resumable_after_fatal_alert",
+                                       where="session_cache"), W,
+                                  "the SessionCache still serves the "
+                                  "session of the connection that received "
+                                  "the fatal alert")
     elif desc == 0:
         # close_notify: reads return empty, session stays resumable
         if vt.status == "exc":
@@ -816,6 +834,9 @@ def finalize(m, tier):
         out.append("no send failure with a pending alert was surfaced")
     if c.get("full_reads_checked", 0) == 0:
         out.append("read completeness oracle never evaluated")
+    if c.get("cache_entry_checked_after_fatal", 0) == 0:
+        out.append("no cached session checked after a fatal alert on a "
+                   "resumed connection")
     if c.get("reused_objects", 0) < 9:
         out.append("fewer than 9 second sessions on re-used connection "
                    "objects")
